@@ -362,6 +362,47 @@ fn run_job(args: &Args, job: &Value, seq: usize) -> Value {
     }
     let rootpath = tree::join(&sb, rootrel);
     let op = job["op"].clone();
+    if op["k"].as_str() == Some("concurrent") {
+        // several library calls racing each other on real threads (untraced), released by a barrier
+        let rflags = job.get("rflags").and_then(|r| r.as_u64()).unwrap_or(0);
+        let root = match Root::open(&rootpath) {
+            Ok(r) => Arc::new(r.with_resolver_flags(ResolverFlags::from_bits_retain(rflags))),
+            Err(e) => {
+                out["res"] = json!({"setup_err": e.to_string()});
+                let _ = std::fs::remove_dir_all(&sb);
+                return out;
+            }
+        };
+        let ops: Vec<Value> = op["ops"].as_array().cloned().unwrap_or_default();
+        out["snap_before"] = json!(tree::snapshot(&sb));
+        let barrier = Arc::new(std::sync::Barrier::new(ops.len()));
+        let mut hs = vec![];
+        for o in ops {
+            let root = root.clone();
+            let barrier = barrier.clone();
+            hs.push(std::thread::spawn(move || {
+                barrier.wait();
+                let r = std::panic::catch_unwind(std::panic::AssertUnwindSafe(|| run_rust(&root, None, None, &o)));
+                match r {
+                    Ok(oc) => {
+                        let v = outcome_json(&oc);
+                        if let Outcome::Fd(fd) = oc {
+                            unsafe { libc::close(fd) };
+                        }
+                        v
+                    }
+                    Err(_) => json!({"panic": "thread"}),
+                }
+            }));
+        }
+        let outs: Vec<Value> = hs.into_iter().map(|h| h.join().unwrap_or(json!({"panic": "join"}))).collect();
+        out["res"] = json!({"outs": outs});
+        out["snap_after"] = json!(tree::snapshot(&sb));
+        drop(root);
+        let _ = std::process::Command::new("chmod").arg("-R").arg("u+rwx").arg(&sb).status();
+        let _ = std::fs::remove_dir_all(&sb);
+        return out;
+    }
     if op["k"].as_str() == Some("raw_openat2") {
         // the kernel's own answer: openat2(root, path, {flags, resolve}) issued directly (oracle of C01/C04)
         out["res"] = raw_openat2(&rootpath, &op);
